@@ -41,6 +41,8 @@ class CNode(fm.TimeComponent):
     outs: [(name, info_mode, data_mode)]  info_mode: decl | open | from_in:<i> | arg ;  data_mode: const | pull:<i>[,<j>]
     All inputs are pulled initially."""
 
+    cache = True  # ConnectHelper(cache=...): class attribute so that a whole composition can be switched
+
     def __init__(self, name, ins, outs, start=0):
         super().__init__()
         self._name = name
@@ -76,7 +78,7 @@ class CNode(fm.TimeComponent):
                 self.outputs.add(name=n)
                 if im.startswith("from_in:"):
                     out_rules[n] = [FromInput(im.split(":")[1]), FromValue("time", self.time), FromValue("units", "m"), FromValue("tag", self.name)]
-        self.create_connector(pull_data=[n for n, _ in self.ins], in_info_rules=in_rules, out_info_rules=out_rules)
+        self.create_connector(pull_data=[n for n, _ in self.ins], in_info_rules=in_rules, out_info_rules=out_rules, cache=CNode.cache)
 
     def const_value(self, oname):
         return 100.0 * (ord(self.name[0]) - 64) + 10.0 * [o[0] for o in self.outs].index(oname)
@@ -176,9 +178,10 @@ def expected_value(specs, links, X, i, memo=None):
             return sum(expected_value(specs, links, Y, d) for d in dm.split(":")[1].split(",")) + 1.0
 
 
-def run_connect(specs, links, order, link_order):
+def run_connect(specs, links, order, link_order, cache=True):
     """executes the real Composition.connect; returns (outcome, observations, comps)"""
     World.calls = 0
+    CNode.cache = cache
     comps = {s[0]: CNode(*s) for s in specs}
     c = compose([comps[n] for n in order])
     for li in link_order:
